@@ -4,9 +4,9 @@ CONSTANTS
   Sizes = {999999, 1000000, 1000001}
   EventMax = 1000000
   BodyMax = 5000000
-  MaxBatch = 6
+  MaxBatch = 5
   Sub = 1
-  MaxEvents = 6
+  MaxEvents = 5
   MaxNow = 0
   MaxFaults = 0
   Behaviours = {"ok"}
